@@ -5,11 +5,17 @@ E-grid (complete products, no sampling) over
 * shiftop : Huang-Rhys factor x sign of the shift x basis size of operator_factory
             ("default" = the factory as the aggregate code creates it; the shift is obtained
             through Mode.set_HR / set_shift / get_shift);
+* shiftop-direct : Huang-Rhys factor x argument class of the direct call
+            operator_factory(N).shift_operator(d): d real positive, real negative, purely
+            imaginary (both signs), general complex (three phases) x basis size;
 * agg     : aggregates of two-level molecules with harmonic modes; every mode slot
             independently takes every (Huang-Rhys factor, sign, levels in g, levels in e)
             of its alphabet; x number of molecules x modes per molecule x coupling x
             exciton multiplicity x ground-state displacement x frequency set.  For
-            one-molecule cases Molecule.get_Hamiltonian is checked on a fresh molecule.
+            one-molecule cases (up to 3 modes, thorough 4) Molecule.get_Hamiltonian is
+            checked on a fresh molecule: every element between all pairs of quantum-number
+            tuples against the sum over modes of one-mode displaced-oscillator Hamiltonians,
+            and the spectrum.
 
 Oracles (mc/refmodels/fc_laguerre.py, closed Laguerre formula, no diagonalisation, no
 quantarhei): see the clause list in run().
@@ -125,19 +131,48 @@ def _maxerr(a, b):
 LEVELS_ORTH = [1, 2, 3, 5, 8, 20]
 
 
+PHASES = [[1.0, 0.0], [-1.0, 0.0], [0.0, 1.0], [0.0, -1.0],
+          [0.6, 0.8], [-0.8, 0.6], [0.28, -0.96]]          # exact unit vectors (re, im)
+
+
+def _phase_class(ph):
+    if ph[1] == 0.0:
+        return "real-positive" if ph[0] > 0 else "real-negative"
+    return "imaginary" if ph[0] == 0.0 else "complex"
+
+
 def eval_shiftop(case):
     qr = isolation.qr()
     from quantarhei.qm.oscillators.ho import operator_factory
     viol, dev = [], {}
-    S, sg = float(case["S"]), int(case["sg"])
+    S = float(case["S"])
+    ph = case.get("ph")
     # N = "default": the factory exactly as the aggregate code creates it
     of = operator_factory() if case["N"] == "default" else operator_factory(int(case["N"]))
     N = int(of.N)
-    mol = {"E": [0.0, 1.0], "dip": DIPS[0],
-           "modes": [{"w": 0.05, "d": [0.0, _shift(S, sg)], "n": [2, 2], "S": S, "sg": sg}]}
-    m = _molecule(qr, mol, viol, dev)
-    d_lib = m.get_Mode(0).get_shift(1)               # what the aggregate code would use
-    d_ref = _shift(S, sg)
+    if ph is None:
+        # route "mode": the shift is what Mode.set_HR / set_shift / get_shift hand to the
+        # aggregate code (real shifts only)
+        sg = int(case["sg"])
+        mol = {"E": [0.0, 1.0], "dip": DIPS[0],
+               "modes": [{"w": 0.05, "d": [0.0, _shift(S, sg)], "n": [2, 2], "S": S, "sg": sg}]}
+        m = _molecule(qr, mol, viol, dev)
+        d_lib = m.get_Mode(0).get_shift(1)           # what the aggregate code would use
+        d_ref = _shift(S, sg)
+        sfx, tag = "", sg
+    else:
+        # route "direct": operator_factory(N).shift_operator(d) with d of every argument
+        # class (real positive / real negative / purely imaginary / general complex),
+        # |d|^2/2 = S
+        r = float(numpy.sqrt(2.0 * S))
+        if ph[1] == 0.0:
+            d_ref = float(ph[0]) * r
+            sfx = ""
+        else:
+            d_ref = complex(float(ph[0]) * r, float(ph[1]) * r)
+            sfx = "/%s-shift" % _phase_class(ph)
+        d_lib = d_ref
+        tag = "direct:%s" % _phase_class(ph)
     D = numpy.asarray(of.shift_operator(d_lib))
     if D.shape != (N, N):
         viol.append(("shiftop/shape", "shift operator has shape %s" % (D.shape,), None))
@@ -147,56 +182,74 @@ def eval_shiftop(case):
     err, k = _maxerr(D[:M, :M], R)
     dev["shiftop-laguerre"] = err
     if not err <= TOL:
-        viol.append(("shiftop/laguerre-block%d" % M,
-                     "<%s|D(%g)|%s> = %s, closed formula %s (HR=%g, N=%d)"
-                     % (k[0], d_ref, k[1], D[k], R[k], S, N), {"err": err}))
+        viol.append(("shiftop/laguerre-block%d%s" % (M, sfx),
+                     "<%s|D(%s)|%s> = %s, closed formula %s (HR=%g, N=%d)"
+                     % (k[0] if k else "?", d_ref, k[1] if k else "?",
+                        D[k] if k else "?", R[k] if k else "?", S, N), {"err": err}))
     # Poisson distribution from the vibrational ground state, mean = Huang-Rhys factor
     p = numpy.abs(D[:, 0]) ** 2
     pref = F.poisson(S, M)
     err, k = _maxerr(p[:M], pref)
     dev["shiftop-poisson"] = err
     if not err <= TOL:
-        viol.append(("shiftop/poisson-pmf",
-                     "|<%s|D|0>|^2 = %g, Poisson(%g) gives %g" % (k[0], p[k], S, pref[k]),
-                     {"err": err}))
+        viol.append(("shiftop/poisson-pmf%s" % sfx,
+                     "|<%s|D(%s)|0>|^2 = %s, Poisson(%g) gives %s"
+                     % (k[0] if k else "?", d_ref, p[k] if k else "?", S,
+                        pref[k] if k else "?"), {"err": err}))
     mean = float(numpy.sum(numpy.arange(N) * p))
     norm = float(numpy.sum(p))
     e2 = max(abs(mean - S), abs(norm - 1.0))
     dev["shiftop-mean"] = e2
     if not e2 <= TOL * max(1.0, S):
-        viol.append(("shiftop/poisson-mean",
+        viol.append(("shiftop/poisson-mean%s" % sfx,
                      "distribution from the ground state has norm %.12g and mean %.12g, "
                      "Huang-Rhys factor is %g" % (norm, mean, S), None))
     # unitarity of the full matrix; sub-blocks orthogonal up to the truncated tail
-    err, _ = _maxerr(D @ D.conj().T, numpy.eye(N))
+    DDh, DhD = D @ D.conj().T, D.conj().T @ D
+    err, _ = _maxerr(DDh, numpy.eye(N))
     dev["shiftop-unitary"] = err
     if not err <= TOL:
-        viol.append(("shiftop/unitary-full", "max|D D^+ - 1| = %g on %d levels" % (err, N),
-                     None))
+        viol.append(("shiftop/unitary-full%s" % sfx,
+                     "max|D D^+ - 1| = %g on %d levels (shift %s)" % (err, N, d_ref), None))
+    # unitarity seen in the converged low-level block (levels < M of the full products)
+    err = max(_maxerr(DDh[:M, :M], numpy.eye(M))[0], _maxerr(DhD[:M, :M], numpy.eye(M))[0])
+    dev["shiftop-unitary-low"] = err
+    if not err <= TOL:
+        viol.append(("shiftop/unitary-low-block%d%s" % (M, sfx),
+                     "max|(D D^+ - 1)|, |(D^+ D - 1)| on the lowest %d levels = %g (shift %s)"
+                     % (M, err, d_ref), None))
     worst = 0.0
     for n in LEVELS_ORTH:
         if n > M:
             continue
         B = D[:n, :n]
-        for tag, G, dd in (("rows", B @ B.conj().T, d_ref), ("cols", B.conj().T @ B, -d_ref)):
+        for tg, G, dd in (("rows", B @ B.conj().T, d_ref), ("cols", B.conj().T @ B, -d_ref)):
             t = numpy.array([F.row_tail(dd, i, n) for i in range(n)])
             bound = numpy.sqrt(numpy.outer(t, t))
             exc = numpy.abs(G - numpy.eye(n)) - bound
-            worst = max(worst, float(numpy.max(exc)))
-            if not numpy.max(exc) <= TOL:
-                viol.append(("shiftop/orth-truncation/%s" % tag,
+            mx = float(numpy.max(exc)) if numpy.all(numpy.isfinite(exc)) else float("inf")
+            worst = max(worst, mx)
+            if not mx <= TOL:
+                viol.append(("shiftop/orth-truncation/%s%s" % (tg, sfx),
                              "%d-level block: |B B^+ - 1| exceeds the truncated tail weight "
-                             "by %g" % (n, float(numpy.max(exc))), None))
+                             "by %g" % (n, mx), None))
             # the diagonal deficit IS the tail weight
-            e3 = float(numpy.max(numpy.abs((1.0 - numpy.real(numpy.diag(G))) - t)))
+            e3 = numpy.abs((1.0 - numpy.real(numpy.diag(G))) - t)
+            e3 = float(numpy.max(e3)) if numpy.all(numpy.isfinite(e3)) else float("inf")
             worst = max(worst, e3)
             if not e3 <= TOL:
-                viol.append(("shiftop/orth-deficit/%s" % tag,
+                viol.append(("shiftop/orth-deficit/%s%s" % (tg, sfx),
                              "%d-level block: diagonal deficit differs from the tail weight "
                              "by %g" % (n, e3), None))
     dev["shiftop-orth"] = worst
-    out = ["shiftop", case["N"], N, round(S, 6), sg, round(float(numpy.real(D[0, 0])), 9),
-           round(float(numpy.real(D[1, 0])), 9)]
+
+    def _r(z):
+        z = complex(z)
+        if not (numpy.isfinite(z.real) and numpy.isfinite(z.imag)):
+            return "nonfinite"
+        return [round(z.real, 9), round(z.imag, 9)]
+
+    out = ["shiftop", case["N"], N, round(S, 6), tag, ph, _r(D[0, 0]), _r(D[1, 0])]
     return {"nontrivial": S > 0, "outcome": out, "violations": _dedupe(viol),
             "info": {"dev": dev}}
 
@@ -428,6 +481,58 @@ def eval_agg(case):
             "info": info}
 
 
+def _check_molecule_elements(m, mol, data, scale, viol, dev):
+    """Every element of Molecule.get_Hamiltonian between all pairs of quantum-number tuples
+    against the SUM over the modes of one-mode displaced-oscillator Hamiltonians (each the
+    identity on all other modes), mc/refmodels/fc_laguerre.molecule_hamiltonian.  The zero of
+    energy is not claimed (one common constant on the diagonal is fitted); either orientation
+    of the coordinates is accepted, the same one for all modes and electronic states."""
+    labels, _ = F.molecule_hamiltonian(mol["E"], mol["modes"], 1)
+    # order of the states: the molecule's own list of (electronic state, quantum numbers) if
+    # it is the complete product; electronic state major / C order otherwise
+    perm = None
+    try:
+        lib_labels = [(int(e), tuple(int(x) for x in vs)) for (e, vs) in m.all_states]
+        if sorted(lib_labels) == sorted(labels) and len(lib_labels) == len(labels):
+            pos = {l: k for k, l in enumerate(labels)}
+            perm = numpy.array([pos[l] for l in lib_labels])
+            labels = lib_labels
+    except (AttributeError, TypeError, ValueError):
+        perm = None
+    n = len(labels)
+    offd = ~numpy.eye(n, dtype=bool)
+    best = None
+    for sigma in (+1, -1):
+        _, Href = F.molecule_hamiltonian(mol["E"], mol["modes"], sigma)
+        if perm is not None:
+            Href = Href[numpy.ix_(perm, perm)]
+        c = float(numpy.median(numpy.diag(data) - numpy.diag(Href)))
+        diff = numpy.abs(data - Href - c * numpy.eye(n))
+        if not numpy.all(numpy.isfinite(diff)):
+            diff = numpy.where(numpy.isfinite(diff), diff, numpy.inf)
+        k = numpy.unravel_index(int(numpy.argmax(diff)), diff.shape)
+        cand = (float(diff[k]), k, Href, c, sigma)
+        if best is None or cand[0] < best[0]:
+            best = cand
+        if cand[0] <= TOL * scale:
+            break
+    err, k, Href, c, sigma = best
+    dev["mol-H-elements"] = err / max(scale, 1e-300)
+    if not err <= TOL * scale:
+        la, lb = labels[k[0]], labels[k[1]]
+        if la[0] != lb[0]:
+            kind = "between-electronic-states"
+        else:
+            kind = "tuples-differing-in-%d-modes" % sum(1 for x, y in zip(la[1], lb[1]) if x != y)
+        viol.append(("mol-H/elements/%s" % kind,
+                     "<%s|H|%s> = %.12g; sum over the modes of one-mode displaced-oscillator "
+                     "Hamiltonians (identity on the other modes) gives %.12g (%d modes, "
+                     "neither coordinate orientation fits)"
+                     % (la, lb, data[k] - (c if k[0] == k[1] else 0.0), Href[k],
+                        len(mol["modes"])),
+                     {"err": err, "states": [list(la), list(lb)]}))
+
+
 def _check_molecule(qr, spec, viol, dev):
     """Molecule.get_Hamiltonian on a fresh molecule: dimension, no coupling between
     electronic states, spectrum."""
@@ -451,6 +556,7 @@ def _check_molecule(qr, spec, viol, dev):
         viol.append(("mol-H/electronic-offblock-nonzero",
                      "elements between electronic states up to %g without any diabatic "
                      "coupling" % offb, None))
+    _check_molecule_elements(m, mol, data, scale, viol, dev)
     sym = 0.5 * (data + data.T)
     trunc, exact, gbound, box = F.molecule_spectrum(mol["E"], mol["modes"])
     ref_all = numpy.sort(numpy.concatenate(trunc))
@@ -549,18 +655,29 @@ def _section(nm, alphabet, extra, constraint=None):
 J1, J2 = 0.02, -0.035
 
 
+def _shiftop_direct(Ss, Ns):
+    """complete product basis size x Huang-Rhys factor x argument class of the direct call
+    operator_factory(N).shift_operator(d), |d|^2/2 = S (S = 0: one phase, d = 0)."""
+    return [{"kind": "shiftop", "S": S, "N": N, "ph": ph}
+            for N in Ns for S in Ss for ph in PHASES if (S > 0 or ph == PHASES[0])]
+
+
 def sections(tier):
     """name -> list of cases (each the complete product of its alphabets)."""
     sec = {}
     if tier == "quick":
         sec["shiftop"] = [{"kind": "shiftop", "S": S, "sg": sg, "N": "default"}
                           for (S, sg) in _signed([0, 0.01, 0.1, 0.5, 1, 2])]
+        sec["shiftop-direct"] = _shiftop_direct([0, 0.01, 0.1, 0.5, 1, 2], ["default"])
         full = _slot_alphabet(_signed([0, 0.01, 0.1, 0.5, 1, 2]), _pairs([1, 2, 3, 5]))
         q16 = _slot_alphabet([(0, 1), (0.1, 1), (0.5, -1), (1, 1)],
                              [(2, 2), (1, 2), (3, 2), (2, 3)])
         q6 = _slot_alphabet([(0, 1), (0.5, -1), (1, 1)], [(2, 2), (1, 3)])
         sec["1mol-1mode"] = _section([1], full, {"d0": [0.0, 0.3]})
         sec["1mol-2modes"] = _section([2], q16, {"wset": ["A", "B"]})
+        # three modes on one molecule: all quantum-number tuples (Molecule.get_Hamiltonian
+        # element-wise against the sum over modes of one-mode Hamiltonians)
+        sec["1mol-3modes"] = _section([3], q6, {"d0": [0.0, 0.3]})
         sec["2mol-1mode"] = _section([1, 1], q16, {"J": [0.0, J1], "mult": [1, 2]})
         sec["2mol-uneven"] = (_section([1, 0], q16, {"J": [J1]}) +
                               _section([0, 1], q16, {"J": [J1]}) +
@@ -579,6 +696,8 @@ def sections(tier):
         sec["shiftop"] = [{"kind": "shiftop", "S": S, "sg": sg, "N": N}
                           for N in ("default", 150)
                           for (S, sg) in _signed([0, 0.01, 0.1, 0.25, 0.5, 1, 2, 3, 5, 8])]
+        sec["shiftop-direct"] = _shiftop_direct([0, 0.01, 0.1, 0.25, 0.5, 1, 2, 3, 5, 8],
+                                                ["default", 150])
         full = _slot_alphabet(_signed([0, 0.01, 0.1, 0.5, 1, 2, 3]), _pairs([1, 2, 3, 5, 8, 20]))
         t96 = _slot_alphabet([(0, 1), (0.1, 1), (0.5, -1), (1, 1), (2, 1)],
                              _pairs([1, 2, 3, 5]))          # 80 values per slot
@@ -589,7 +708,8 @@ def sections(tier):
             a = [dict(s, w=w) for s in full]
             sec["1mol-1mode"] += _section([1], a, {"d0": [0.0, 0.3, -0.6]})
         sec["1mol-2modes"] = _section([2], t96, {"wset": ["A", "B"]})
-        sec["1mol-3modes"] = _section([3], t9, {"d0": [0.0, 0.3]})
+        sec["1mol-3modes"] = _section([3], t9, {"d0": [0.0, 0.3], "wset": ["A", "B"]})
+        sec["1mol-4modes"] = _section([4], t6, {"d0": [0.0, 0.3]})
         sec["2mol-1mode"] = _section([1, 1], t96, {"J": [0.0, J1, J2], "mult": [1, 2]},
                                      lambda c: (c["J"], c["mult"]) in ((0.0, 1), (J1, 1), (J2, 2)))
         sec["2mol-uneven"] = (_section([1, 0], t96, {"J": [J1]}) +
@@ -616,7 +736,9 @@ def run(run):
     run.rule = ("complete product: every mode slot of the aggregate independently takes every "
                 "(Huang-Rhys factor, sign of shift, levels in g, levels in e) of the section's "
                 "alphabet, x coupling x multiplicity x ground-state shift x frequency set; "
-                "shift operator: complete product HR x sign x basis size.  non-trivial = at "
+                "shift operator: complete product HR x sign x basis size (shift taken from "
+                "Mode) and HR x argument class {real +, real -, +-imaginary, 3 general complex "
+                "phases} x basis size (direct call).  non-trivial = at "
                 "least one mode with a non-zero displacement between g and e and more than "
                 "one level (shiftop: HR > 0)")
     run.assumptions = [
@@ -628,7 +750,11 @@ def run(run):
         "internal units (no unit conversion involved; C05 owns units)",
         "either orientation of the oscillator coordinate is accepted (sigma=+1: overlap = "
         "<n_a|D(d_a-d_b)|n_b> as implemented; sigma=-1: mirrored), but one per aggregate",
-        "Molecule.get_Hamiltonian: spectrum only (basis independent) - equal to that of the "
+        "Molecule.get_Hamiltonian, element-wise for all pairs of quantum-number tuples: equal "
+        "to E_e + sum over modes of omega(a+a - dQ + d^2/2 + 1/2) x identity on the other modes "
+        "in the number basis of the undisplaced oscillators, up to one common diagonal constant "
+        "(zero of energy not claimed) and the orientation of the coordinates",
+        "Molecule.get_Hamiltonian, spectrum (basis independent) - equal to that of the "
         "displaced oscillator truncated to the declared number states, exact ladder for zero "
         "shift, above the exact levels and ground level within omega*S*p_{N-1}/(1-t_N) else",
         "more than 20 levels per mode cannot be built (20-level FC table): counted as "
@@ -642,7 +768,8 @@ def run(run):
                   "HR": "0..2 (agg), 0..8 (shiftop)" if run.tier == "thorough" else "0..2",
                   "levels": "1..20" if run.tier == "thorough" else "1..5",
                   "molecules": "1..3",
-                  "modes_per_molecule": "0..3" if run.tier == "thorough" else "0..2",
+                  "modes_per_molecule": "0..4" if run.tier == "thorough" else "0..3",
+                  "shift_argument_classes": [_phase_class(ph) for ph in PHASES],
                   "mult": [1, 2]}
     worst, unbuildable, mirrored = {}, [], 0
     for name, cs in secs.items():
